@@ -21,7 +21,16 @@ import (
 	"github.com/q191201771/naza/pkg/nazabytes"
 )
 
-func ParseSps(payload []byte, ctx *Context) error {
+func ParseSps(payload []byte, ctx *Context) (err error) {
+	// The bit reader indexes one byte past the end when an exp-golomb code ends in the very last bit of a truncated
+	// sps (a zero-length read behind the terminating 1 bit): such an sps is an error of the input, not a reason to
+	// take the process down
+	defer func() {
+		if r := recover(); r != nil {
+			Log.Errorf("ParseSps panic recovered. r=%v, payload=%s", r, hex.Dump(nazabytes.Prefix(payload, 128)))
+			err = nazaerrors.Wrap(base.ErrShortBuffer)
+		}
+	}()
 	// ISO-14496-10 7.3.1, 7.4.1: the syntax elements are read from the RBSP, i.e. after the
 	// emulation_prevention_three_byte of every 00 00 03 sequence has been removed.
 	br := nazabits.NewBitReader(nal2rbsp(payload))
